@@ -146,6 +146,20 @@ struct Explorer {
         }
     }
 
+    // C17 only: the documented k-nearest-neighbour query is an operation of the class too; only memory accesses are judged here
+    void check_knn(Built &b, const std::string &spec) {
+        if (prop != 17 || b.pts.empty()) return;
+        size_t n = b.pts.size();
+        std::vector<P> probes = {b.sorted.front().second, b.sorted.back().second, b.sorted[n / 2].second};
+        { P far = b.sorted.back().second; for (size_t d = 0; d < D; ++d) far[d] = T(far[d] + 3); probes.push_back(far); P zero{}; probes.push_back(zero); }
+        for (auto &q : probes) for (size_t k : {size_t(1), size_t(2), std::min<size_t>(n, 5), std::min<size_t>(n, 70), n}) {
+            if (k < 1 || k > n) continue;
+            run.set_case(case_of(spec, "knn=" + pt_str<D, T>(q) + " k=" + std::to_string(k)));
+            run.add(cn.contains_q);
+            try { auto r = b.idx->knn(to_tuple<D, T>(q), uint32_t(k)); volatile size_t sink = r.size(); (void) sink; } catch (const std::exception &) {}
+        }
+    }
+
     void check_contains(Built &b, const P &p, const std::string &spec) {
         std::string cs = case_of(spec, "contains=" + pt_str<D, T>(p));
         run.set_case(cs);
@@ -209,7 +223,7 @@ struct Explorer {
                 Built b{};
                 if (build(spec_cells, spec, b)) {
                     if (!sampled && digit[C - 1] == 2 && digit[C - 2] == 1) { run.sample(case_of(spec, "*all boxes over the axis values*")); sampled = true; }
-                    if (input_order == 0) run_queries(b, box_axis, cont_axis, spec);
+                    if (input_order == 0) { run_queries(b, box_axis, cont_axis, spec); check_knn(b, spec); }
                     else {   // other input orders: the index must be the same, so a thin query slice suffices
                         if (prop == 13 || prop == 17) { P mn, mx; for (size_t i = 0; i < D; ++i) { mn[i] = box_axis.front(); mx[i] = box_axis.back(); } check_box(b, mn, mx, spec); }
                         if (prop == 14 || prop == 17) for (auto &c : spec_cells) check_contains(b, c.first, spec);
@@ -269,6 +283,7 @@ struct Explorer {
                 check_box(b, Q(1, 0), Q(5, 5), spec);
             }
             if (prop == 14 || prop == 17) for (T x = 0; x < 4; ++x) for (T y = 0; y < 3; ++y) check_contains(b, P{T(x + B), T(y + B)}, spec);
+            check_knn(b, spec);
             delete b.idx;
         }
     }
@@ -299,6 +314,7 @@ struct Explorer {
             P mx2 = mx; mx2[0] = T(X + 4); check_box(b, mn, mx2, spec);
         }
         if (prop == 14 || prop == 17) { check_contains(b, in1, spec); check_contains(b, miss, spec); P absent = in1; absent[1] = 1; check_contains(b, absent, spec); }
+        check_knn(b, spec);
         delete b.idx;
     }
 
